@@ -21,6 +21,9 @@ import (
 var ErrKilled = errors.New("sched: thread killed (simulated crash)")
 
 var active atomic.Bool
+
+// SyncGo makes Go run its argument inline while no exploration is active.
+var SyncGo bool
 var cur *Sched
 
 // Active reports whether an exploration execution is in progress.
@@ -369,6 +372,11 @@ func Canon(label string) string {
 // plain goroutine.
 func Go(f func()) {
 	if !active.Load() {
+		if SyncGo {
+			// harness mode for sequential checks: spawned work completes before the spawner continues
+			f()
+			return
+		}
 		go f()
 		return
 	}
